@@ -364,7 +364,9 @@ let candidates (h : header) (vcount : int ref) (ecount : int ref) : (int * move)
     let inn = nat_of_int i in
     add 40 (MIn (IDn (inn, DH)));
     if h.opname = "flatten" && i = 0 then begin
-      for k = 0 to 3 do add 8 (MIn (IDn (O, DD (VN (nat_of_int k))))) done
+      for k = 0 to 3 do add 8 (MIn (IDn (O, DD (VN (nat_of_int k))))) done;
+      (* 100+k is the SAME inner source value as k, emitted again (the harness hands out one Arc for both) *)
+      for k = 0 to 1 do add 5 (MIn (IDn (O, DD (VN (nat_of_int (100 + k)))))) done
     end else
       add 30 (MIn (IDn (inn, DD (VN (nat_of_int (match rand 12 with
                                                   | 0 | 1 | 2 -> !vcount mod 10
@@ -373,6 +375,13 @@ let candidates (h : header) (vcount : int ref) (ecount : int ref) : (int * move)
     add 8 (MIn (IDn (inn, DT)));
     add 4 (MIn (IDn (inn, DE (nat_of_int (100 + !ecount)))))
   done;
+  if h.opname = "flatten" then
+    List.iter (fun i ->
+      let inn = nat_of_int i in
+      add 30 (MIn (IDn (inn, DH)));
+      add 24 (MIn (IDn (inn, DD (VN (nat_of_int (rand 10))))));
+      add 6 (MIn (IDn (inn, DT)));
+      add 3 (MIn (IDn (inn, DE (nat_of_int (100 + !ecount)))))) [101; 102];
   !acc
 
 let pick (l : (int * move) list) : move option =
